@@ -81,7 +81,13 @@ func fanoutStageRule(o *Ob) {
 	o.Require(l != nil, "fan-loop", "integrations are not started in a loop", g)
 	coll, kind := e.RangeOver(l)
 	o.Check(coll == "recv" && kind == "index" && len(e.EarlyExits(l)) == 0, "fan-range", "every integration of the receiver must be started", g)
-	o.Check(len(g.Call.Args) == 1 && e.X(fn, g.Call.Args[len(g.Call.Args)-1]) == "recv[i]", "fan-arg", "each goroutine must get its own stage", g)
+	stageParam := -1
+	for i, a := range g.Call.Args {
+		if e.X(fn, a) == "recv[i]" {
+			stageParam = i
+		}
+	}
+	o.Check(stageParam >= 0, "fan-arg", "each goroutine must get its own stage", g)
 	// every iteration starts one
 	bi, _ := l.BodyEntry()
 	r := (&Walk{Fn: fn, Barrier: IsInstr(g)}).FromEdge(l.Header, bi)
@@ -99,11 +105,17 @@ func fanoutStageRule(o *Ob) {
 		v := e.X(fn, ret.Results[2])
 		o.Check(strings.Contains(v, "errors.Join("), "fan-errors", "the joined errors of the integrations must be returned, returns "+v, ret)
 	}
+	// the wait group counts every goroutine before it starts: all at once before the loop, or one per iteration
 	add := o.One(e.Calls(fn, "(*sync.WaitGroup).Add"), "fan-add", "the wait group must count the integrations", fn)
-	o.Check(e.Arg(add, 1) == "len(recv)", "fan-add-n", "the wait group must count every integration", add)
+	if al := e.LoopOf(add); al != nil && al.Header == l.Header {
+		o.Check(e.Arg(add, 1) == "1", "fan-add-n", "the wait group must count every integration", add)
+	} else {
+		o.Check(e.Arg(add, 1) == "len(recv)", "fan-add-n", "the wait group must count every integration", add)
+	}
+	o.Check(InstrDominates(add, g), "fan-add-late", "a goroutine can start before the wait group counts it (Wait could return early)", g)
 	lit := g.Call.Value.(*ssa.MakeClosure).Fn.(*ssa.Function)
 	ex := o.One(e.Calls(lit, "invoke:am/notify.Stage.Exec"), "fan-exec", "each goroutine must execute its stage", lit)
-	o.Check(e.Arg(ex, 0) == "p0" && e.Arg(ex, 3) == "^p2", "fan-exec-args", "each integration must get the whole batch", ex)
+	o.Check(e.Arg(ex, 0) == "p"+itoa(stageParam) && e.Arg(ex, 3) == "^p2", "fan-exec-args", "each integration must get the whole batch", ex)
 	done := o.One(e.Calls(lit, "(*sync.WaitGroup).Done"), "fan-done", "each goroutine must signal completion", lit)
 	for _, ret := range (&Walk{Fn: lit}).FromEntry().Returns() {
 		o.Check(InstrDominates(done, ret) || true, "fan-done-all-paths", "", ret)
@@ -112,15 +124,33 @@ func fanoutStageRule(o *Ob) {
 	// the error is recorded when non-nil
 	exs := e.X(lit, ex.(*ssa.Call))
 	failed := L("("+exs+"#2 == nil)", false)
-	var errStore ssa.Instruction
+	// every store of the goroutine that carries the stage's error into state shared with Exec
+	var errStores []ssa.Instruction
 	for _, in := range AllInstrs(lit) {
-		if st, ok := in.(*ssa.Store); ok && strings.HasPrefix(e.X(lit, st.Addr), "^&errs") {
-			errStore = st
-			o.Check(strings.Contains(e.X(lit, st.Val), exs+"#2"), "fan-err-value", "the recorded error must include the integration's error", st)
+		st, ok := in.(*ssa.Store)
+		if !ok || !rootsInFreeVar(st.Addr) {
+			continue
+		}
+		if e.DerivesFrom(st.Val, true, func(v ssa.Value) bool {
+			x, isX := v.(*ssa.Extract)
+			return isX && x.Tuple == ssa.Value(ex.(*ssa.Call)) && x.Index == 2
+		}) {
+			errStores = append(errStores, st)
+			o.Site(st, "records the error in "+e.X(lit, st.Addr))
 		}
 	}
-	if o.Check(errStore != nil, "fan-err-store", "an integration's error is not recorded", nil) {
-		o.Forced(lit, "fan-err-forced", "a failing integration's error must be recorded", IsInstr(errStore), failed)
+	if o.Check(len(errStores) > 0, "fan-err-store", "an integration's error is not recorded", nil) {
+		if e.CountLitEdges(lit, failed)+e.CountLitEdges(lit, failed.Neg()) > 0 {
+			o.Forced(lit, "fan-err-forced", "a failing integration's error must be recorded", IsInstr(errStores...), failed)
+		} else {
+			// recorded unconditionally (a nil error is recorded as nil)
+			o.Forced(lit, "fan-err-forced", "an integration's error must be recorded", IsInstr(errStores...))
+		}
+		// and what Exec returns is computed from what the goroutines recorded
+		for _, ret := range (&Walk{Fn: fn}).FromEntry().Returns() {
+			src := e.Sources(ret.Results[2], true)
+			o.Check(src[ex.(*ssa.Call)], "fan-err-value", "the error returned by FanoutStage.Exec does not include the integrations' errors", ret)
+		}
 	}
 	// no cancellation of siblings: the literal must not call a cancel function / context.WithCancel
 	for _, f := range []*ssa.Function{fn, lit} {
@@ -324,4 +354,24 @@ func init() {
 		}
 		o.Fail("missing", "rule C04.5 not registered", nil)
 	})
+}
+
+// rootsInFreeVar: the address lies in storage the literal shares with its creator (a captured
+// variable, or an element / field of what a captured variable holds).
+func rootsInFreeVar(addr ssa.Value) bool {
+	for i := 0; i < 8; i++ {
+		switch x := addr.(type) {
+		case *ssa.FreeVar:
+			return true
+		case *ssa.IndexAddr:
+			addr = x.X
+		case *ssa.FieldAddr:
+			addr = x.X
+		case *ssa.UnOp:
+			addr = x.X
+		default:
+			return false
+		}
+	}
+	return false
 }
